@@ -290,9 +290,14 @@ def splice_new_helpers(functions_of_unit, force=None):
         new = {n: f for n, f in functions_of_unit.items() if n not in known and f.get('body') is not None}
     if not new:
         return 0
-    # helpers that call themselves (directly) are left alone
+    # helpers that call themselves (directly) are left alone; so are pure accessors (`return expr;`), which the normaliser
+    # already expands wherever an expression mentions them
     for n in list(new):
-        if any(ir.callee_name(c) == n for c, _ in ir.all_calls(new[n]['body'])):
+        b = new[n]['body']
+        stmts = b['body'] if b['k'] == 'block' else [b]
+        if any(ir.callee_name(c) == n for c, _ in ir.all_calls(b)):
+            del new[n]
+        elif force is None and len(stmts) == 1 and stmts[0]['k'] == 'return':
             del new[n]
     count = [0]
 
